@@ -87,7 +87,7 @@ KINDS = [
     ("hb", "cost_promotion", "random"),
     ("synchb", "random"), ("synchb", "bayesopt"), ("dehb",), ("pbt",), ("msr",), ("moasha",),
     ("synchb", "random", "max"), ("synchb_custom", "min"), ("synchb_custom", "max"), ("dehb", "max"),
-    ("hb", "stopping", "bayesopt_dup"), ("hb", "promotion", "bayesopt_dup"),
+    ("hb", "stopping", "bayesopt_dup"), ("hb", "promotion", "bayesopt_dup"), ("fifo", "bayesopt_cap"),
 ]
 CUSTOM_RUNGS = [
     [[(6, 1), (3, 2), (1, 5)], [(4, 2), (2, 5)], [(2, 5)]],
@@ -120,6 +120,12 @@ def make_scheduler(kind, seed):
             return HyperbandScheduler(rc_space, searcher="random", type=kind[1], metric="m", mode="min", resource_attr="epoch",
                                       max_resource_attr="epochs", grace_period=1, reduction_factor=3, brackets=1,
                                       random_seed=seed, search_options=rc_opts)
+        if kind[0] == "fifo" and kind[1] == "bayesopt_cap":
+            # single-fidelity GP searcher with a small max_size_data_for_model: the state converter that down-samples the
+            # data before every fit is active after a handful of completed trials
+            return FIFOScheduler(cs, searcher="bayesopt", metric="m", mode="min", random_seed=seed,
+                                 search_options={"num_init_random": 2, "max_size_data_for_model": 4 + seed % 3, "debug_log": False,
+                                                 "opt_maxiter": 3, "opt_nstarts": 1, "num_init_candidates": 20})
         if kind[0] == "fifo":
             if kind[1] == "grid":
                 cs = {"x": choice(["a", "b", "c", "d"]), "y": randint(0, 5), "epochs": MAX_T}
@@ -517,7 +523,7 @@ def staged_sync(kind, seed):
     return dict(problems=problems, stats=stats)
 
 
-def directed_failed_after_report(kind, seed, nsug=14):
+def directed_failed_after_report(kind, seed, nsug=14, before_report=False):
     """A trial reports the best value seen so far and then fails; the following suggestions (model-based phase) must not
     propose its configuration again -- also with allow_duplicates=True."""
     from syne_tune.backend.trial_status import Trial
@@ -539,6 +545,10 @@ def directed_failed_after_report(kind, seed, nsug=14):
                 if failed_cfg is not None and hp(sug.config) == failed_cfg:
                     problems.append(("failed_configuration_suggested_again", failed_cfg, "suggestion #%d" % i))
                     break
+                if i == 1 and before_report:
+                    sch.on_trial_error(tr)
+                    failed_cfg = hp(sug.config)
+                    continue
                 d = sch.on_trial_result(tr, {"m": 0.01 if i == 1 else 0.2 + 0.7 * rng.random(), "m2": 0.5, "epoch": 1, "cost": 1.0})
                 if i == 1:
                     if d != "CONTINUE":
@@ -830,13 +840,16 @@ def _run(ctx, replay):
         # random searcher drawing from restrict_configurations (4 configurations) with allow_duplicates=True
         for kind in (("fifo", "random_rc_dup"), ("hb", "stopping", "random_rc_dup"), ("hb", "promotion", "random_rc_dup")):
             dd += [(kind, rng.randrange(10 ** 6)) for _ in range(ctx.n(4, 40))]
+        # single-fidelity bayesopt run past max_size_data_for_model after a failure (before / after the first report)
+        dd += [(("fifo", "bayesopt_cap"), rng.randrange(10 ** 6)) for _ in range(ctx.n(6, 60))]
     for kind, seed in dd:
         case = dict(part="F", kind=list(kind), seed=seed)
-        probs = directed_failed_after_report(kind, seed, nsug=70 if kind[-1] == "random_rc_dup" else 14)
+        probs = directed_failed_after_report(kind, seed, nsug=70 if kind[-1] == "random_rc_dup" else 14,
+                                             before_report=(kind[-1] == "bayesopt_cap" and seed % 2 == 0))
         ctx.count(case, nontrivial=True)
         ctx.h("F_failed_after_report", "/".join(kind) + (":resuggested" if probs else ":ok"))
         for prob in probs:
-            ctx.violation("property", "scheduler %s (allow_duplicates=True), seed %d: %r" % (
+            ctx.violation("property", "scheduler %s (directed failure scenario), seed %d: %r" % (
                 "/".join(kind), seed, prob), case=case, signature=signature_for(kind, prob))
     staged = []
     if replay is not None and replay.get("part") == "S":
